@@ -185,7 +185,7 @@ pub fn with_watchdog<R: Send + 'static>(fake: &Arc<FakeSat>, secs: u64, f: impl 
                     .unwrap_or_default();
                 if !done && wchan.contains("pipe_write") {
                     verdict = Watched::Deadlock(format!(
-                        "call did not return within {} s while the child (invocation {}, pid {:?}) sleeps in {} on its stdout pipe: nobody reads the solver's output",
+                        "call did not return within {} s while the child (invocation {}, pid {:?}) sleeps in {} on one of its output pipes (stdout or stderr): nobody reads what the solver prints",
                         secs, inv, child_pid, wchan.trim()
                     ));
                 }
